@@ -1,4 +1,5 @@
 import FiberModel.C01.Main
+import FiberModel.C01.UseOverride
 import FiberModel.C01.Known
 /-
 C01 — property theorems (only). Helper lemmas: Lemmas.lean (sorted lists, buildTree, cursor),
@@ -147,6 +148,30 @@ theorem dispatch_after_override_partial (E : Env π α) (regs : List (Reg α)) (
     cases k with
     | k1 => simp [Known.K1reach, h] at hK1
     | k2 => simp [Known.K2reach, h] at hK2
+
+/-- **dispatch_after_use_override** (full strength on its domain, no region hypothesis). If every
+`c.Method(override)` of the program is made by a `Use` middleware filed in the global bucket
+(`app.Use(mw)` or a prefix shorter than 3 bytes), `Use` registrations list every method (what `register`
+does) and `addRoute` merged nothing, then for every request the dispatcher equals the linear scan —
+wherever the middleware is registered, whatever method-specific routes precede it in either tree, with
+any path overrides by any handlers: the rank-based cursor of the repaired `Method(override)` is the
+ideal one at every override, so neither K1 nor K2 is reached. -/
+theorem dispatch_after_use_override (E : Env π α) (regs : List (Reg α)) (hwf : WF regs)
+    (hloc : LocalR E regs) (hall : UseAll E regs) (hov : OverrideInUse E regs)
+    (hnm : NoMerge E (build true regs)) (m : Nat) (hm : m < E.nMethods) (p : π) :
+    dispatch E regs m p = .ok (linear E regs m p) := by
+  have hal : AlignedK (candidates E (build true regs) m p) 0 0 := by
+    unfold AlignedK
+    rw [List.drop_zero]
+    symm
+    rw [List.filter_eq_self]
+    intro r _; simp
+  obtain ⟨o, ho⟩ := next_ok E (build true regs) (useOK_build E regs hwf hall hov hnm)
+    (build true regs).fuel 0 m p 0 false hm hal
+  have hK : dispatchK E regs m p = .ok o := ho
+  apply dispatch_after_override_partial E regs hwf hloc m p
+  · simp [Known.K1reach, hK]
+  · simp [Known.K2reach, hK]
 
 /-- The same statement with the regions the checker actually suppresses (`Known.K1`, `Known.K2` =
 the situation is reached **and** the model deviates). On runs that reach a situation the conclusion
@@ -406,6 +431,27 @@ def regsF3 : List (Reg Bytes) :=
 example : dispatch E regsF3 0 (b "/abc") = .ok { trace := [1, 2, 3], fin := .stop } := by decide
 example : linear E regsF3 0 (b "/abc") = { trace := [1, 2, 3], fin := .stop } := by decide
 example : Known.K1reach E regsF3 0 (b "/abc") = false ∧ Known.K2reach E regsF3 0 (b "/abc") = false := by decide
+
+/-- `dispatch_after_use_override`'s hypotheses are met by this table (the middleware is *behind* a
+method-specific route, the case the un-repaired code got wrong) -/
+example : NoMerge E (build true regsF3) := by unfold NoMerge; decide
+example : UseAll E regsF3 := by
+  intro g hg hu i hi
+  simp only [regsF3, List.mem_cons, List.mem_nil_iff, or_false] at hg
+  rcases hg with rfl | rfl | rfl
+  · simp [lit] at hu
+  · simp only [useRoot, allM, List.mem_range]; exact hi
+  · simp [lit] at hu
+example : OverrideInUse E regsF3 := by
+  intro g hg x hx m' hsc
+  simp only [regsF3, List.mem_cons, List.mem_nil_iff, or_false] at hg
+  rcases hg with rfl | rfl | rfl
+  · simp only [lit, List.mem_cons, List.mem_nil_iff, or_false] at hx; subst hx; simp [h] at hsc
+  · simp only [useRoot, List.mem_cons, List.mem_nil_iff, or_false] at hx; subst hx
+    simp only [h, Script.setMethod.injEq] at hsc
+    subst hsc
+    exact ⟨rfl, rfl, by decide⟩
+  · simp only [lit, List.mem_cons, List.mem_nil_iff, or_false] at hx; subst hx; simp [h] at hsc
 
 /-- the common aligned case (override middleware registered first, POST → PUT) is inside the theorem too -/
 def regsK1ok : List (Reg Bytes) :=
